@@ -311,6 +311,41 @@ def run_misuse(ses):
             m.get()
         tests.append(('%s get() after an unbounded solve' % kind, t_unbounded))
 
+    # every front end x every way of combining two expressions: operands of two different models must be rejected
+    def mkf(front):
+        from rsome import lp, socp, gcp
+        m = {'lp': lp.Model, 'socp': socp.Model, 'gcp': gcp.Model, 'ro': ro.Model, 'dro': (lambda: dro.Model(2))}[front]()
+        return m, m.dvar(2)
+    COMB = {
+        'a + b': lambda a, b: a + b, 'a - b': lambda a, b: a - b, 'a <= b': lambda a, b: a <= b, 'a == b': lambda a, b: a == b,
+        'concat([a, b])': lambda a, b: rso.concat([a, b]), 'concat([2a, b+1])': lambda a, b: rso.concat([2.0 * a, b + 1.0]),
+        'rstack(a, b)': lambda a, b: rso.rstack(a, b), 'cstack(a, b)': lambda a, b: rso.cstack(a, b),
+        'vec(a[0], a[1], b[0], b[1])': lambda a, b: rso.vec(a[0], a[1], b[0], b[1]),
+        'rstack([a[0], b[0]], [a[1], b[1]])': lambda a, b: rso.rstack([a[0], b[0]], [a[1], b[1]]),
+        'maxof(a.sum(), b.sum())': lambda a, b: rso.maxof(a.sum(), b.sum()),
+        'sumsqr(concat)': lambda a, b: rso.sumsqr(rso.concat([a, b])),
+        'a @ b': lambda a, b: a @ b,
+    }
+    fronts = ('lp', 'socp', 'gcp', 'ro', 'dro')
+    for fa, fb in itertools.product(fronts, repeat=2):
+        for cname, comb in COMB.items():
+            for pos in ('ab', 'ba'):
+                def t_mix(fa=fa, fb=fb, comb=comb, pos=pos):
+                    m1, x1 = mkf(fa)
+                    m2, x2 = mkf(fb)
+                    e = comb(x1, x2) if pos == 'ab' else comb(x2, x1)
+                    from rsome.lp import LinConstr, CvxConstr, Bounds
+                    if hasattr(e, 'sense') or type(e).__name__.endswith('Constr') or type(e).__name__ == 'Bounds':
+                        m1.st(e)
+                    else:
+                        s_ = e.sum() if hasattr(e, 'sum') and getattr(e, 'size', 1) > 1 else e
+                        m1.st(s_ <= 1)
+                    m1.min(x1.sum())
+                    m1.st(x1 >= 0)
+                    m1.do_math()
+                tests.append(('%s model uses %s with an operand of a second %s model (foreign operand %s)'
+                              % (fa, cname, fb, 'last' if pos == 'ab' else 'first'), t_mix))
+
     def t_amb_after():
         m = dro.Model(2)
         x = m.dvar(2)
